@@ -150,6 +150,48 @@ theorem finding_to_number_numeric_truncates : roundHalfAway 12345 10 = 1235 ∧ 
 theorem finding_to_number_round_overflow :
     fitsDigits (truncDiv 99995 10) 4 = true ∧ fitsDigits (roundHalfAway 99995 10) 4 = false := by decide
 
+/-- **The reported result type is the computed one**: for ALL precisions and scales, the (precision, scale) that
+    `cursor.description` reads back from DuckDB's type text `DECIMAL(p,s)` is (p, s) — with the type decision above:
+    TO_NUMBER/TO_DECIMAL/TO_NUMERIC(x, p, s) report NUMBER(p, s) for every scale, not only one-digit ones -/
+theorem C10_decimal_description (p s : Nat) : parseDecimalType (renderDecimalType p s) = (p, s) := by
+  unfold parseDecimalType renderDecimalType
+  have hpre : ("DECIMAL(".toList ++ natDigits p ++ ',' :: (natDigits s ++ [')'])).take 8 = "DECIMAL(".toList := by
+    rw [List.append_assoc]; exact List.take_left' rfl
+  have hdrop : ("DECIMAL(".toList ++ natDigits p ++ ',' :: (natDigits s ++ [')'])).drop 8 = natDigits p ++ ',' :: (natDigits s ++ [')']) := by
+    rw [List.append_assoc]; exact List.drop_left' rfl
+  rw [if_pos hpre, hdrop]
+  obtain ⟨h1, h2⟩ := takeWhile_append_stop isDigit (natDigits p) ',' (natDigits s ++ [')']) (natDigits_all p) (by decide)
+  obtain ⟨h3, h4⟩ := takeWhile_append_stop isDigit (natDigits s) ')' [] (natDigits_all s) (by decide)
+  simp only [h1, h2, h3, h4, digitsVal_natDigits]
+
+/-- a reader that only accepts a one-digit scale reports NUMBER(38,0) for DECIMAL(20,10) -/
+theorem C10_decimal_description_two_digit_scale :
+    parseDecimalType (renderDecimalType 20 10) = (20, 10) ∧ parseDecimalTypeOneDigitScale (renderDecimalType 20 10) = (38, 0) := by
+  decide
+
+/-! ### TO_TIMESTAMP(<integer> [, scale]) -/
+
+/-- **TO_TIMESTAMP of an integer is a TIMESTAMP_NTZ for every scale**: the cast fakesnow adds makes the result
+    naive whatever function sqlglot chose; without the cast it is naive only for scales 3 and 6 -/
+theorem C10_to_timestamp_type (scale : Option Nat) :
+    toTimestampTzAware true scale = false ∧
+    (toTimestampTzAware false scale = true ↔ (scale.isSome ∧ scale ≠ some 3 ∧ scale ≠ some 6)) := by
+  refine ⟨by simp [toTimestampTzAware], ?_⟩
+  cases scale with
+  | none => simp [toTimestampTzAware]
+  | some n =>
+    by_cases h3 : n = 3
+    · subst h3; simp [toTimestampTzAware, unixToTimeFn, TsFn.tzAware]
+    · by_cases h6 : n = 6
+      · subst h6; simp [toTimestampTzAware, unixToTimeFn, TsFn.tzAware]
+      · have : unixToTimeFn (some n) = .toTimestamp := by
+          unfold unixToTimeFn; split <;> simp_all
+        simp [toTimestampTzAware, this, TsFn.tzAware, h3, h6]
+
+/-- C10/to-timestamp-float-tz-aware — a float argument is not an `exp.UnixToTime`, gets no cast, and DuckDB's
+    to_timestamp is TIMESTAMP WITH TIME ZONE -/
+theorem finding_to_timestamp_float : TsFn.toTimestamp.tzAware = true := rfl
+
 /-! ### DATEADD -/
 
 def C10_dateadd_type_Full : Prop := ∀ u s, dateaddImpl u s = dateaddSpec u s
